@@ -15,7 +15,7 @@ def run(ctx):
     design = lc.design(ctx, ["noCopy"], coverage=thorough)
     # what-if: the damage is visible to the next checker (order dependence), not only as a fingerprint
     a, b, c, d, _ = lc.WHATIFS["noCopy"]
-    r = ctx.tlc("LifecycleMC", cfg_text=lc.CFG % (a, b, c, d, "HistIndep"), workers=4, timeout=300, expect="violation")
+    r = ctx.tlc("LifecycleMC", cfg_text=lc.CFG % ("TRUE", a, b, c, d, "HistIndep"), workers=4, timeout=300, expect="violation")
     design["noCopy_orderDependence"] = {"refuted": r.violated, "distinct": r.distinct}
 
     runs = []
